@@ -19,6 +19,8 @@ class ScriptEnd(Exception):
 
 
 FAULT_CLASSES = ("TransportFailedError", "TransportError", "HarnessTransportError", "TransportFailedError<-OSError")
+# failures OUTSIDE the documented family (only where a statement speaks of "the transport fails" without naming a class: C08)
+FOREIGN_FAULTS = ("foreign:RuntimeError", "foreign:OSError")
 
 
 def make_fault(name: str, attempt: int) -> BaseException:
@@ -28,6 +30,11 @@ def make_fault(name: str, attempt: int) -> BaseException:
     from aiomysensors.exceptions import TransportError
 
     text = f"injected write fault at attempt {attempt}"
+    if name == "foreign:RuntimeError":
+        # what the built-in MQTT client raises when asked to publish while it is not connected
+        return RuntimeError("Client needs to connect before publishing.")
+    if name == "foreign:OSError":
+        return BrokenPipeError(32, f"Broken pipe ({text})")  # a third-party transport that lets the OS error through
     if name == "TransportError":
         return TransportError(text)
     if name == "HarnessTransportError":
